@@ -9,7 +9,7 @@ use core::{
     pin::Pin,
     task::{Context, Poll},
 };
-use flatty::{error::ErrorKind, Flat};
+use flatty::{error::ErrorKind, utils::floor_mul, Flat};
 #[cfg(feature = "io")]
 use futures::io::AsyncRead;
 
@@ -63,7 +63,9 @@ impl<M: Flat + ?Sized, P: AsyncRead + Unpin> IoReceiver<M, P> {
 
 impl<M: Flat + ?Sized, B: AsyncReadBuffer> Receiver<M, B> {
     pub async fn recv(&mut self) -> Result<RecvGuard<'_, M, B>, RecvError<B::Error>> {
-        while let Err(e) = M::validate(&self.buffer) {
+        // Only whole alignment units can belong to a message (a mapped value never covers a
+        // trailing partial unit), so do not let validation see a partially received one.
+        while let Err(e) = M::validate(&self.buffer[..floor_mul(self.buffer.len(), M::ALIGN)]) {
             match e.kind {
                 ErrorKind::InsufficientSize => (),
                 _ => return Err(RecvError::Parse(e)),
